@@ -16,6 +16,7 @@ import AmrK.ChunksCover
 import AmrK.CellHCodec
 import AmrK.HypsModel
 import AmrK.HeaderRender
+import AmrK.TasteWFModel
 /-! `amrk-driver`: one JSON object per line in, one JSON object per line out.
     Executable definitions of the model only (no Mathlib behind any import). -/
 open Lean
@@ -192,7 +193,7 @@ def strList (j : Json) : Except String (List Bytes) := do
 def intListJ (j : Json) : Except String (List Int) := do
   (← j.getArr?).toList.mapM (·.getInt?)
 open Header in
-def opRenderHeader (j : Json) : Except String Json := do
+def hdataOfJson (j : Json) : Except String HData := do
   let s (k : String) : Except String Bytes := do return Py.ofString (← (← j.getObjVal? k).getStr?)
   let lvs ← (← j.getObjVal? "levels").getArr?
   let levels ← lvs.toList.mapM fun l => do
@@ -205,7 +206,7 @@ def opRenderHeader (j : Json) : Except String Json := do
               stepLine := Py.ofString (← (← l.getObjVal? "step").getStr?),
               dir := Py.ofString (← (← l.getObjVal? "dir").getStr?),
               tail := Py.ofString (← (← l.getObjVal? "tail").getStr?) } : LevelData)
-  let H : HData := {
+  return {
     version := ← s "version", names := ← strList (← j.getObjVal? "names"), ndims := ← (← j.getObjVal? "ndims").getNat?,
     time := ← s "time", geoLo := ← strList (← j.getObjVal? "geo_lo"), geoHi := ← strList (← j.getObjVal? "geo_hi"),
     factors := ← intListJ (← j.getObjVal? "factors"),
@@ -214,9 +215,52 @@ def opRenderHeader (j : Json) : Except String Json := do
     dx := ← (← (← j.getObjVal? "dx").getArr?).toList.mapM strList,
     coordLine := ← s "coord", levels, trails := ← strList (← j.getObjVal? "trails"),
     dxTrails := ← strList (← j.getObjVal? "dx_trails") }
+
+open Header in
+def opRenderHeader (j : Json) : Except String Json := do
+  let H ← hdataOfJson j
   let text := render H
   let back := match parse text none with | .ok _ => "ok" | .refused w => "refused:" ++ w
   return Json.mkObj [("hex", toJson (hex text)), ("good", toJson H.goodB), ("parse", toJson back)]
+
+/-! ### well-formedness certificate of a whole plotfile (hypothesis of `Taste.tastePlt_of_wfB`) -/
+def rowsOfJson (j : Json) : Except String (List Taste.BoxRow) := do
+  (← j.getArr?).toList.mapM fun r => do
+    let lo ← (← (← r.getObjVal? "lo").getArr?).toList.mapM (·.getInt?)
+    let hi ← (← (← r.getObjVal? "hi").getArr?).toList.mapM (·.getInt?)
+    let file ← (← r.getObjVal? "file").getStr?
+    let off ← (← r.getObjVal? "offset").getNat?
+    return ({ lo, hi, file := Py.ofString file, offset := off } : Taste.BoxRow)
+
+def opWfPlt (files : Std.HashMap String Bytes) (j : Json) : Except String Json := do
+  let H ← hdataOfJson (← j.getObjVal? "content")
+  let n ← (← j.getObjVal? "n").getNat?
+  let hk ← (← j.getObjVal? "header").getStr?
+  let lvj ← (← j.getObjVal? "level_content").getArr?
+  let lv ← lvj.toList.mapM fun l => do
+    let rows ← rowsOfJson (← l.getObjVal? "rows")
+    let extra ← strList (← l.getObjVal? "extra")
+    return (rows, extra)
+  let ds ← (← j.getObjVal? "dirs").getObj?
+  let dirs ← ds.toList.mapM fun (name, d) => do
+    let cellH : Option Bytes := match d.getObjVal? "cellh" with
+      | .ok (.str k) => some (files.getD k [])
+      | _ => none
+    let fs ← (← d.getObjVal? "files").getObj?
+    let fl := fs.toList.map fun (n, k) => (n, files.getD (k.getStr?.toOption.getD "") [])
+    return (name, ({ cellH := cellH, files := fl } : Taste.LevelDir))
+  let header := files.getD hk []
+  let wf := Taste.pltWFB H n lv header dirs
+  -- diagnostics (not part of the certificate)
+  let lvDiag := ((H.levels.take n).zip lv).map fun (l, rows, extra) =>
+    match dirs.lookup (str l.dir) with
+    | none => "no-dir"
+    | some d => match d.cellH with
+      | none => "no-cellh"
+      | some c => if c != Taste.renderCellHExt H.names.length rows extra then "cellh-text" else
+          if !Taste.levelWFB H.names.length rows d.files then "binary-files" else "ok"
+  return Json.mkObj [("wf", toJson wf), ("header_same", toJson (header == Header.render H)), ("good", toJson H.goodB),
+    ("levels", toJson lvDiag)]
 
 /-! ### mandoline column -/
 open Column in
@@ -365,6 +409,7 @@ partial def loop (h : IO.FS.Stream) (out : IO.FS.Stream) (files : Std.HashMap St
         | "paths" => opPaths j
         | "render_cellh" => opRenderCellH j
         | "render_header" => opRenderHeader j
+        | "wf_plt" => opWfPlt files j
         | "chunks" => opChunks j
         | "taste_plt" => opTastePlt files j
         | "column" => opColumn j
